@@ -94,3 +94,13 @@ Theorem C08_no_stderr :
   forall (o : sobj) (uni : uclass) (bytes : str), writes_stderr (reset o) uni bytes = false.
 Proof. exact Mpath.Proofs.C08.C08_no_stderr. Qed.
 Print Assumptions C08_no_stderr.
+
+(** the pooled scanners are the only state a parse can leave behind: apart from the pool, one mutex
+    and the two validation caches (C16) the package has no variable written after initialisation and
+    no self-synchronising value — Generated/State.v, regenerated from the source on every run *)
+From Coq Require Import String List.
+From Mpath.Generated Require State.
+Theorem C08_state_inventory :
+  map fst Mpath.Generated.State.package_state = ["mutex"; "pool"; "variable"; "variable"]%string.
+Proof. reflexivity. Qed.
+Print Assumptions C08_state_inventory.
